@@ -72,8 +72,16 @@ pub fn replay(id: &str, path: &str) -> i32 {
         #[cfg(feature = "hfs")]
         {
             // hfs cases are cheap: re-run the hfs part of the property and report its first violation
-            let code = run(id, Tier::Quick);
+            let code = std::panic::catch_unwind(|| run(id, Tier::Quick)).unwrap_or(1);
             return if code == 0 { Ok(()) } else { Err(format!("the hfs part of {id} reports a violation (details above; case: {})", case)) };
+        }
+        if case["kind"] == "uncaught-panic" {
+            // the whole quick exploration is the replay: it stops at the same panic or it does not
+            return match std::panic::catch_unwind(|| run(id, Tier::Quick)) {
+                Ok(0) => Ok(()),
+                Ok(_) => Err(format!("the quick exploration of {id} reports a violation")),
+                Err(_) => Err(format!("a routine call into snow panicked again ({})", case["message"])),
+            };
         }
         #[allow(unreachable_code)]
         match id {
